@@ -99,7 +99,8 @@ def setup(C):
 
 def rewind_clause(rep, mod, tag, prop='C07'):
     lay = Layout(mod)
-    expecting_field = 1
+    from props import stepm
+    expecting_field = stepm.expecting_field_constant(mod)      # the encoding is read from the code, not written down here
     tasks = []
     for f in ENTRIES:
         need(f in mod.functions, '%s: %s not found' % (prop, f))
